@@ -144,6 +144,7 @@ type DialFunc func(ctx context.Context, network, addr string) (net.Conn, error)
 
 type ProxyOpts struct {
 	Name           string
+	NoName         bool   // the instance is configured with the empty name (--name "")
 	ListenIP       string // default 127.0.0.1
 	ListenAddr     string // full host:port; overrides ListenIP
 	Upstream       string // URL
@@ -256,7 +257,9 @@ func StartProxy(o ProxyOpts) (*ProxyInst, error) {
 	reg := prometheus.NewRegistry()
 	cfg.PromRegistry = reg
 	cfg.PromNamespace = "forwarder"
-	if o.Name != "" {
+	if o.NoName {
+		cfg.Name = ""
+	} else if o.Name != "" {
 		cfg.Name = o.Name
 	}
 	cfg.ProxyLocalhost = forwarder.AllowProxyLocalhost
